@@ -29,7 +29,9 @@ MIN_NONTRIVIAL = {"quick": 200, "thorough": 2000}
 EXHAUSTIVE = {"quick": True, "thorough": True}
 
 STR_ALPH = ["a", "b", "ab", "abc", "B", "c"]
-PATTERNS = ["a", "[ab]", ".*", "a|b", "ab?", "a.*", "x", "(?i)b", ["A", int(re.I)], ["a.", int(re.S)], "", "a+b*c?"]
+# a flagged search comes *before* the plain search with the same expression (pattern caches must honour the flags)
+PATTERNS = [["a", int(re.I)], "a", ["[ab]", int(re.I)], "[ab]", ["ab?", int(re.I)], ".*", "a|b", "ab?", "a.*", "x", "(?i)b", ["A", int(re.I)],
+            ["a.", int(re.S)], "", "a+b*c?", ["b", int(re.I)], "b"]
 FLAVOURS = ["str", "int", "ids"]
 
 
@@ -44,7 +46,8 @@ def build(case):
     rng = rng_for(case["seed"], "c09", case["f"], case["flavour"])
     n = gen.size(f)
     par = gen.parents(f)
-    t = Tree("t")
+    # a tree with an id hook that computes the default rule: lookups must behave exactly the same
+    t = Tree("t", calc_data_id=(lambda tree, data: hash(data))) if case.get("hook") else Tree("t")
     fl = case["flavour"]
     if fl == "str":
         labs = gen.clone_labeling(rng, f, STR_ALPH) or [f"n{i}" for i in range(n)]
@@ -377,6 +380,8 @@ def run_shard(spec, res):
                     run_case({"f": gen.code(f), "flavour": fl, "seed": seed}, res)
                     if n >= 3:
                         run_case({"f": gen.code(f), "flavour": fl, "seed": seed, "prelude": True}, res)
+                    if n >= 2 and k % 2:
+                        run_case({"f": gen.code(f), "flavour": fl, "seed": seed, "hook": True}, res)
                 if res.expired():
                     res.count("exhaustive_cut")
                     res.inconc("enumeration cut by time budget")
@@ -385,7 +390,7 @@ def run_shard(spec, res):
         rng = rng_for(seed, "c09-rand", spec["i"])
         for j in range(spec["count"]):
             f = gen.random_forest(rng, rng.randint(6, 16))
-            run_case({"f": gen.code(f), "flavour": rng.choice(FLAVOURS), "seed": rng.randrange(10**6), "prelude": rng.random() < 0.5}, res)
+            run_case({"f": gen.code(f), "flavour": rng.choice(FLAVOURS), "seed": rng.randrange(10**6), "prelude": rng.random() < 0.5, "hook": rng.random() < 0.3}, res)
             if res.expired():
                 break
 
